@@ -32,14 +32,28 @@ def run(ctx):
     for idx in failing[:10]:
         ctx.violation('correspondence', 'Module.response/sensitivity/reset', 'model == implementation', 'dispatch',
                       dict(label=labels[idx], coq=checks[idx][:3000]))
-    E = modzoo.entries(pym, ctx.seed + 11, thorough=not quick)
+    # the zoo of C01 + the sparse EigenSolve family (standard / generalised, nmodes 1 .. default, shifts, finite-element pencil)
+    E = modzoo.entries(pym, ctx.seed + 11, thorough=not quick, extra=('eig_sparse',))
     rng = np.random.default_rng(ctx.seed + 3)
     with contextlib.redirect_stdout(io.StringIO()):
         for e in E:
             ctx.search_evaluations += 1
             ctx.count('oracle:' + e['name'])
+            if e['name'] == 'EigenSolve':
+                ctx.count('oracle:EigenSolve ' + str(e['cfg'].get('kind')) + ' nmodes=' + str(e['cfg'].get('nmodes', 'default')))
             try:
-                fails = modzoo.protocol_check(e, pym, rng)
+                for attempt in range(6):
+                    try:
+                        fails = modzoo.protocol_check(e, pym, rng)
+                        break
+                    except Exception as ex:  # noqa
+                        if not (isinstance(ex, modzoo.KnownFirstVisit) or (modzoo._is_sparse_eig(e) and 'exactly singular' in str(ex))):
+                            raise
+                        # known finding K02 (SuperLU 'Factor is exactly singular' while A - lam_i*B is factorised on the FIRST visit
+                        # of a mode after a response()); sporadic (ARPACK start vector): the history is run again on new instances
+                        ctx.count('K02 on a first visit: history repeated')
+                        if attempt == 5:
+                            raise RuntimeError(str(ex)) from None
             except Exception as ex:
                 # an exception that a single plain response/seed/sensitivity cycle raises as well is C01's business
                 # ("the call completes without raising"), not one of C04's clauses; only protocol-specific failures count here
